@@ -209,7 +209,21 @@ func checkC07(c *Ctx, r *Result, tier string) {
 		}
 		var bad []string
 		var badPos token.Pos
+		// `return p.parse()`: the results are those of a helper, which is checked in its place
+		passThrough := map[*ssa.Return]*ssa.Function{}
 		o.AtReturn = func(st *PState, ret *ssa.Return) {
+			if len(ret.Results) == 2 {
+				e0, ok0 := st.canon(ret.Results[0]).(*ssa.Extract)
+				e1, ok1 := st.canon(ret.Results[1]).(*ssa.Extract)
+				if ok0 && ok1 && e0.Tuple == e1.Tuple && e0.Index == 0 && e1.Index == 1 {
+					if call, isCall := e0.Tuple.(*ssa.Call); isCall {
+						if h := call.Call.StaticCallee(); h != nil && h != fn && c.modFuncSet[h] && c.PkgOf(h) == "parser" && returnsNodeErr(h.Signature, node) {
+							passThrough[ret] = h
+							return
+						}
+					}
+				}
+			}
 			for _, errNil := range []bool{true, false} {
 				s2 := st.clone()
 				if !s2.refineCond(mkIsNil(ret.Results[1]), errNil, o) {
@@ -234,6 +248,36 @@ func checkC07(c *Ctx, r *Result, tier string) {
 		if !ExplorePaths(fn, o) {
 			r.Undecide("R07b: path exploration of %s exceeded its state bound", key)
 			continue
+		}
+		// helpers whose results are passed through carry the same obligation
+		for _, h := range passThrough {
+			hk := c.FuncKey(h)
+			ho := mkOracle()
+			ho.AtReturn = func(st *PState, ret *ssa.Return) {
+				for _, errNil := range []bool{true, false} {
+					s2 := st.clone()
+					if !s2.refineCond(mkIsNil(ret.Results[1]), errNil, ho) {
+						continue
+					}
+					if errNil {
+						s2.refineVal(ret.Results[1], AvNil, ho)
+					} else {
+						s2.refineVal(ret.Results[1], AvNonNil, ho)
+					}
+					tv := s2.Get(ret.Results[0], ho)
+					if errNil && tv != AvNonNil {
+						bad = append(bad, "nil error with a possibly nil tree (in "+hk+")")
+						badPos = ret.Pos()
+					}
+					if !errNil && tv != AvNil {
+						bad = append(bad, "a tree is returned together with an error (in "+hk+")")
+						badPos = ret.Pos()
+					}
+				}
+			}
+			if !ExplorePaths(h, ho) {
+				r.Undecide("R07b: path exploration of %s exceeded its state bound", hk)
+			}
 		}
 		if len(bad) == 0 {
 			r.Instance("R07b", key, c.Pos(fn.Pos()), "ok", "at every return exactly one of (tree, error) is non-nil", true)
@@ -313,6 +357,8 @@ func c07Channel(c *Ctx, r *Result) {
 				}
 			} else if root.Name() == "NewLABuffer" {
 				allowed, why = true, "constructor of the look-ahead buffer"
+			} else if prm, isPrm := u.X.(*ssa.Parameter); isPrm && u.CommaOk && recvUntilClosed(u) && drainOnly(root, prm) {
+				allowed, why = true, "a drain function: it only receives from its channel parameter until the channel is closed"
 			} else {
 				why = "receives from a token channel outside the look-ahead buffer and the channel's owner"
 			}
@@ -402,6 +448,20 @@ func channelReleased(c *Ctx, fn *ssa.Function, call *ssa.Call, tok *types.Named)
 			d, ok := in.(*ssa.Defer)
 			if !ok {
 				continue
+			}
+			// a named drain function handed the channel: defer drainTokens(tokens)
+			if df := d.Call.StaticCallee(); df != nil && c.modFuncSet[df] && c.PkgOf(df) == "parser" {
+				for ai, a := range d.Call.Args {
+					if unspill(a) != ssa.Value(call) || ai >= len(df.Params) {
+						continue
+					}
+					prm := df.Params[ai]
+					allInstrs(df, func(x ssa.Instruction) {
+						if u, ok := x.(*ssa.UnOp); ok && u.Op == token.ARROW && u.CommaOk && u.X == ssa.Value(prm) && recvUntilClosed(u) {
+							def = d
+						}
+					})
+				}
 			}
 			mc, ok := d.Call.Value.(*ssa.MakeClosure)
 			if !ok {
@@ -865,4 +925,22 @@ func c07NodeAfterError(c *Ctx, r *Result) {
 		}
 	}
 	r.Floor("R07f-uses", nSites, 40)
+}
+
+
+// drainOnly: the function does nothing with its channel parameter but receive from it.
+func drainOnly(fn *ssa.Function, prm *ssa.Parameter) bool {
+	if prm.Referrers() == nil {
+		return false
+	}
+	for _, ref := range *prm.Referrers() {
+		u, ok := ref.(*ssa.UnOp)
+		if !ok || u.Op != token.ARROW {
+			if _, isDbg := ref.(*ssa.DebugRef); isDbg {
+				continue
+			}
+			return false
+		}
+	}
+	return true
 }
